@@ -276,4 +276,121 @@ theorem while_dead (H : Hyp T tpep len M fuel) (htl : T.length + len ≤ 1844674
           exact hd
 end While
 
+
+/-! ### the isogeny part of an iteration -/
+
+theorem isoStep_err_iff (P : Params) (j : Nat) (s : St) (he0 : s.err = none) :
+    (isoStep P j s).err ≠ none ↔
+      ¬ (idxOK s.current P.vla = true ∧ (s.sp s.current.toNat).isSome = true ∧ (s.xdbls s.current.toNat).isSome = true) := by
+  by_cases hidx : idxOK s.current P.vla = true
+  · have hidx' := hidx
+    simp [idxOK] at hidx'
+    obtain ⟨c, hc⟩ : ∃ c : Nat, s.current = (c : Int) := ⟨s.current.toNat, by omega⟩
+    have hidxc : idxOK (c : Int) P.vla = true := by rw [← hc]; exact hidx
+    have hct : s.current.toNat = c := by omega
+    rw [hct]
+    simp only [hidx, true_and]
+    by_cases hx : j ≠ 0 ∧ P.isOdd = 1 ∧ c = 0
+    · obtain ⟨h1, h2, rfl⟩ := hx
+      have hidx0 : idxOK 0 P.vla = true := by simpa using hidxc
+      have hc0 : s.current = 0 := by simpa using hc
+      cases hv : s.sp 0 with
+      | none => simp [isoStep, he0, hc0, hidx0, h1, h2, hv, upd, St.fail]
+      | some v =>
+        cases hd : s.xdbls 0 with
+        | none => simp [isoStep, he0, hc0, hidx0, h1, h2, hv, hd, upd, St.fail, St.emit]
+        | some d => simp [isoStep, he0, hc0, hidx0, h1, h2, hv, hd, upd, St.emit]
+    · cases hv : s.sp c with
+      | none => simp [isoStep, he0, hc, hidxc, hx, hv, St.fail]
+      | some v =>
+        cases hd : s.xdbls c with
+        | none => simp [isoStep, he0, hc, hidxc, hx, hv, hd, St.fail, St.emit]
+        | some d => simp [isoStep, he0, hc, hidxc, hx, hv, hd, St.emit]
+  · simp [isoStep, he0, hidx, St.fail]
+
+
+section Iso
+variable (T : List (List Nat)) (tpep len : Nat) (oracle : Nat → Bool) (fuel : Nat) (pl : Int)
+
+/-- the rest of an iteration dies when the kernel slot is out of bounds / uninitialised -/
+theorem iso_dead_slot (k k1 : EvenSt OSt) (hf : k.fault = none) (hb : k.obs.bad = false)
+    (hk1 : whileF (EvenSt.live obs)
+          (fun s => match ec_eval_even_strategy_loop2_cond obs T tpep oracle fuel len pl s with | .ok b => b | .error _ => true)
+          (fun s => match ec_eval_even_strategy_loop2_cond obs T tpep oracle fuel len pl s with
+            | .ok _ => ec_eval_even_strategy_loop2_body obs T tpep oracle fuel len pl s | .error f => s.fail f)
+          (fun s => s.fail .fuel) fuel k = k1)
+    (odd jn : Nat) (h1f : k1.fault = none) (h1b : k1.obs.bad = false) (hodd : k1.is_odd = (odd : Int))
+    (hjj : k1.j = (jn : Int))
+    (hC : ¬ (k1.obs.inb k1.current = true ∧ (k1.obs.sp k1.current).isSome = true)) :
+    Dead (ec_eval_even_strategy_loop1_body obs T tpep oracle fuel len pl k) := by
+  have hbad5 : (ev k1.obs 5 [k1.current]).bad = true := ev_one_bad _ 5 (by simp) _ hC
+  have hbad6 : (ev k1.obs 6 [k1.current]).bad = true := ev_one_bad _ 6 (by simp) _ hC
+  have hbad4 : (ev k1.obs 4 [k1.current, k1.current]).bad = true :=
+    ev_dbl_bad _ _ _ (fun h => hC ⟨h.1, h.2.2⟩)
+  unfold ec_eval_even_strategy_loop1_body
+  rw [step_live _ k hf hb]
+  erw [hk1]
+  by_cases hj : jn = 0
+  · subst hj
+    simp [Dead, EvenSt.step, EvenSt.live, obs, h1f, h1b, hjj, hodd, EvKind.read, EvKind.isog4, EvKind.eval4, EvKind.dbl, truthy,
+          hbad5, hbad6, hbad4]
+  · have hj' : ¬ (jn : Int) = 0 := by omega
+    by_cases hx : (odd : Int) = 0
+    · have hxn : odd = 0 := by omega
+      simp [Dead, EvenSt.step, EvenSt.live, obs, h1f, h1b, hjj, hodd, EvKind.read, EvKind.isog4, EvKind.eval4, EvKind.dbl, truthy,
+          hbad5, hbad6, hbad4, hj, hj', hx, hxn]
+    · by_cases hc0 : k1.current = 0
+      · have hxn : ¬ odd = 0 := by omega
+        have hbad40 : (ev k1.obs 4 [0, 0]).bad = true := by rw [hc0] at hbad4; exact hbad4
+        have hbad60 : (ev k1.obs 6 [0]).bad = true := by rw [hc0] at hbad6; exact hbad6
+        simp [Dead, EvenSt.step, EvenSt.live, obs, h1f, h1b, hjj, hodd, EvKind.read, EvKind.isog4, EvKind.eval4, EvKind.dbl, truthy,
+          hbad5, hbad6, hbad4, hj, hj', hx, hxn, hc0, hbad40, hbad60]
+      · have hxn : ¬ odd = 0 := by omega
+        simp [Dead, EvenSt.step, EvenSt.live, obs, h1f, h1b, hjj, hodd, EvKind.read, EvKind.isog4, EvKind.eval4, EvKind.dbl, truthy,
+          hbad5, hbad6, hbad4, hj, hj', hx, hxn, hc0]
+
+/-- the rest of an iteration dies when `XDBLs[current]` is uninitialised -/
+theorem iso_dead_xd (k k1 : EvenSt OSt) (hf : k.fault = none) (hb : k.obs.bad = false)
+    (hk1 : whileF (EvenSt.live obs)
+          (fun s => match ec_eval_even_strategy_loop2_cond obs T tpep oracle fuel len pl s with | .ok b => b | .error _ => true)
+          (fun s => match ec_eval_even_strategy_loop2_cond obs T tpep oracle fuel len pl s with
+            | .ok _ => ec_eval_even_strategy_loop2_body obs T tpep oracle fuel len pl s | .error f => s.fail f)
+          (fun s => s.fail .fuel) fuel k = k1)
+    (c v odd jn : Nat) (h1f : k1.fault = none) (h1b : k1.obs.bad = false) (hcur : k1.current = (c : Int))
+    (hsz : (c : Int) < k1.obs.size) (hsp : k1.obs.sp (c : Int) = some v) (hodd : k1.is_odd = (odd : Int))
+    (hxs : k1.XDBLs.size = k1.obs.size) (hxg : k1.XDBLs.get (c : Int) = none) (hjj : k1.j = (jn : Int)) :
+    Dead (ec_eval_even_strategy_loop1_body obs T tpep oracle fuel len pl k) := by
+  unfold ec_eval_even_strategy_loop1_body
+  rw [step_live _ k hf hb]
+  erw [hk1]
+  have hin : k1.XDBLs.inb (c : Int) = true := by simp [IArr.inb, hxs]; omega
+  have h0 : (0 : Int) ≤ (c : Int) := by omega
+  have hle : (c : Int) ≤ k1.obs.size := Int.le_of_lt hsz
+  by_cases hj : jn = 0
+  · subst hj
+    by_cases ho : oracle 0 = true
+    · by_cases hp : pl = 0
+      · simp [Dead, EvenSt.step, EvenSt.live, obs, h1f, h1b, hcur, hjj, hodd, hin, rdArr, hxg, EvKind.read, EvKind.isog4, EvKind.eval4,
+          EvKind.dbl, ev_read_s, ev_isog4_s, ev_eval4_s, ev_dbl_s, hsp, hsz, hle, h0, obsDbl_sp, truthy, OSt.inb, EvenSt.fail, ho, hp]
+      · simp [Dead, EvenSt.step, EvenSt.live, obs, h1f, h1b, hcur, hjj, hodd, hin, rdArr, hxg, EvKind.read, EvKind.isog4, EvKind.eval4,
+          EvKind.dbl, ev_read_s, ev_isog4_s, ev_eval4_s, ev_dbl_s, hsp, hsz, hle, h0, obsDbl_sp, truthy, OSt.inb, EvenSt.fail, ho, hp]
+    · simp [Dead, EvenSt.step, EvenSt.live, obs, h1f, h1b, hcur, hjj, hodd, hin, rdArr, hxg, EvKind.read, EvKind.isog4, EvKind.eval4,
+          EvKind.dbl, ev_read_s, ev_isog4_s, ev_eval4_s, ev_dbl_s, hsp, hsz, hle, h0, obsDbl_sp, truthy, OSt.inb, EvenSt.fail, ho]
+  · have hj' : ¬ (jn : Int) = 0 := by omega
+    by_cases hx : odd ≠ 0 ∧ c = 0
+    · obtain ⟨hx1, rfl⟩ := hx
+      have : ¬ (odd : Int) = 0 := by omega
+      have hsp0 : k1.obs.sp 0 = some v := by simpa using hsp
+      have hsz0 : 0 < k1.obs.size := by simpa using hsz
+      have hle0 : 0 ≤ k1.obs.size := by omega
+      have hcur0 : k1.current = 0 := by simpa using hcur
+      have hin0 : k1.XDBLs.inb 0 = true := by simpa using hin
+      have hxg0 : k1.XDBLs.get 0 = none := by simpa using hxg
+      simp [Dead, EvenSt.step, EvenSt.live, obs, h1f, h1b, hcur, hjj, hodd, hin, rdArr, hxg, EvKind.read, EvKind.isog4, EvKind.eval4,
+          EvKind.dbl, ev_read_s, ev_isog4_s, ev_eval4_s, ev_dbl_s, hsp, hsz, hle, h0, obsDbl_sp, truthy, OSt.inb, EvenSt.fail, hj, hj', hx1, this, hsp0, hsz0, hcur0, hin0, hxg0, hle0]
+    · have hx' : ((odd : Int) = 0) ∨ ¬ (c : Int) = 0 := by omega
+      simp [Dead, EvenSt.step, EvenSt.live, obs, h1f, h1b, hcur, hjj, hodd, hin, rdArr, hxg, EvKind.read, EvKind.isog4, EvKind.eval4,
+          EvKind.dbl, ev_read_s, ev_isog4_s, ev_eval4_s, ev_dbl_s, hsp, hsz, hle, h0, obsDbl_sp, truthy, OSt.inb, EvenSt.fail, hj, hj', hx, hx']
+end Iso
+
 end SqiProofs.SkelEvenConv
